@@ -47,34 +47,44 @@ def valid_many(pairs):
 
 
 def configs_for(entry, tier, rng, small_values=(1, 2, 3, 4, 5), max_alt=None):
-    """default configuration + alternative small configurations (admissible ones only)"""
+    """default configuration + alternative small configurations (admissible ones only).
+
+    The alternatives are chosen greedily so that together they cover as many ORDER RELATIONS between pairs of
+    parameters (p_i < p_j, =, >) as possible: amounts that coincide when two periods are equal or ordered one way
+    are exactly what the default configurations (and the pinned tests) cannot tell apart."""
     k = len(entry["params"])
     cfgs = [list(entry["default"])]
     if k == 0:
         return cfgs
     if max_alt is None:
         max_alt = 2 if tier == "quick" else 8
-    if tier == "quick":
-        pool = [v for v in small_values if v <= 4]
-    else:
-        pool = list(small_values)
+    # 5 (not 4) in the quick pool: several buffer sizes only become insufficient from a period difference of 4 on
+    pool = [v for v in small_values if v != 4] if tier == "quick" else list(small_values) + [7]
     cands = list(itertools.product(pool, repeat=k)) if len(pool) ** k <= 4096 else \
-        [tuple(rng.choice(pool) for _ in range(k)) for _ in range(4096)]
+        list({tuple(rng.choice(pool) for _ in range(k)) for _ in range(4096)})
     rng.shuffle(cands)
-    # always include the all-2 / increasing configuration first: small but not degenerate
-    pref = [tuple(min(2 + i, 4) for i in range(k)), tuple(2 for _ in range(k)), tuple(3 for _ in range(k)),
-            tuple(1 for _ in range(k))]
-    ordered = []
-    for c in pref + cands:
-        if list(c) not in ordered and list(c) != cfgs[0]:
-            ordered.append(list(c))
-    oks = valid_many([(entry["name"], c) for c in ordered[:max_alt * 6]])
-    for c, ok in zip(ordered, oks):
-        if ok:
-            cfgs.append(c)
-        if len(cfgs) > max_alt:
-            break
-    return cfgs
+    oks = valid_many([(entry["name"], list(c)) for c in cands])
+    valid = [c for c, ok in zip(cands, oks) if ok and list(c) != cfgs[0]]
+    if not valid:
+        return cfgs
+
+    def relations(c):
+        rel = {("val", i, c[i] == 1) for i in range(k)}        # period 1 is a degenerate case worth having once
+        for i in range(k):
+            for j in range(i + 1, k):
+                rel.add((i, j, (c[i] > c[j]) - (c[i] < c[j])))
+        return rel
+    covered = relations(tuple(cfgs[0])) if all(isinstance(x, int) for x in cfgs[0]) else set()
+    chosen = []
+    while len(chosen) < max_alt and valid:
+        best = max(valid, key=lambda c: (len(relations(c) - covered), len(set(c)), sum(c)))
+        if chosen and not (relations(best) - covered):
+            # nothing new to cover: fill up with the most varied remaining ones
+            best = max(valid, key=lambda c: (len(set(c)), sum(c)))
+        chosen.append(best)
+        covered |= relations(best)
+        valid.remove(best)
+    return cfgs + [list(c) for c in chosen]
 
 
 def record(instances, mode="compute", jobs=None):
